@@ -934,10 +934,9 @@ impl Interpreter {
         self.reset_execution_state();
         self.discard_abandoned_run();
 
-        // Set main module path if this is the entry point
-        if self.main_module_path.is_none() {
-            self.main_module_path = module_path.clone();
-        }
+        // The main module (whose exports get_export / get_export_names report) is the entry
+        // module of this run, not of whichever run first gave the interpreter a path
+        self.main_module_path = module_path.clone();
         self.current_module_path = module_path.clone();
 
         // Parse the source
@@ -1537,10 +1536,9 @@ impl Interpreter {
         self.reset_execution_state();
         self.discard_abandoned_run();
 
-        // Set main module path if this is the entry point
-        if self.main_module_path.is_none() {
-            self.main_module_path = module_path.clone();
-        }
+        // The main module (whose exports get_export / get_export_names report) is the entry
+        // module of this run, not of whichever run first gave the interpreter a path
+        self.main_module_path = module_path.clone();
         self.current_module_path = module_path.clone();
 
         // Parse the source
